@@ -132,7 +132,7 @@ def matrix(names):
 
 
 if __name__ == "__main__" and sys.argv[1] == "matrix":
-    names = sys.argv[2:] or sorted(n for n in os.listdir(os.path.join(VERIF, "seeded")) if os.path.isdir(os.path.join(VERIF, "seeded", n)))
+    names = sys.argv[2:] or sorted(n for n in os.listdir(os.path.join(VERIF, "seeded")) if os.path.isdir(os.path.join(VERIF, "seeded", n)) and n.startswith("S-"))
     matrix(names)
 
 
@@ -169,5 +169,5 @@ def own(names, procs=4):
 
 
 if __name__ == "__main__" and sys.argv[1] == "own":
-    names = sys.argv[2:] or sorted(n for n in os.listdir(os.path.join(VERIF, "seeded")) if os.path.isdir(os.path.join(VERIF, "seeded", n)))
+    names = sys.argv[2:] or sorted(n for n in os.listdir(os.path.join(VERIF, "seeded")) if os.path.isdir(os.path.join(VERIF, "seeded", n)) and n.startswith("S-"))
     own(names)
